@@ -36,6 +36,16 @@ CHECKS['C09'] = dict(
    note='schedules of the real-code part are seeded random (not TLC-enumerated); sequentially consistent; 2-4 threads, <= 7 ops per thread; known finding: aborted push leaves a phantom slot (DESIGN 6.9)',
    technique='PlusCal protocol spec checked by TLC + TLC linearizability validation of recorded real histories (incl. fault injection) against QueueAbs',
    design='4 (C09), 6.4, 6.9')
+CHECKS['C11'] = dict(
+   text='TLC model-checks SegVector (my_size claim by fetch_add, first-block election by CAS on table[0], owner-of-first-index allocates a segment, '
+        'others spin on the null pointer) for 3-4 growing threads: ranges tile, each index constructed exactly once by its claimant and never in an '
+        'unallocated segment, no deadlock. Executions of the real concurrent_vector (push_back/grow_by/grow_to_at_least, embedded->long table switch) under '
+        'seeded random cooperative schedules, fault cases (k-th element copy / allocation throws, forked per case, crash/hang are events), '
+        'grow_to_at_least(2^k+r) up to 2^32 on concurrent_vector<char> under a watchdog, and the index->(segment,offset) arithmetic for indices 2^k+r, k<=62, '
+        'are validated by TLC against VectorAbs (disjoint tiling ranges, values, address stability, allocation on return).',
+   note='real-code schedules are seeded random, not enumerated; grow_to_at_least is required to wait for allocation, not for construction by other threads (documented); post-failure only accesses and destruction are exercised',
+   technique='PlusCal protocol spec checked by TLC + TLC trace validation of recorded real executions (random cooperative schedules, fault injection, large sizes) against VectorAbs',
+   design='4 (C11), 6.3, 6.5, 6.10')
 REASON_PENDING = 'check not built yet in this round (planned in DESIGN.md section 4); no verdict is claimed'
 m = {
  'version': 1,
